@@ -44,7 +44,7 @@ def _child_lists(U):
     return occ
 
 
-def tree_structure(U):
+def tree_structure(U, max_depth=MAX_DEPTH):
     """Clauses 1-4 of C03 on the live universe.  Bounded: cannot hang on a broken tree."""
     occ = _child_lists(U)
     for i, obj in enumerate(U.objs):
@@ -77,7 +77,7 @@ def tree_structure(U):
             continue
         seen = [obj]
         cur = obj
-        for _ in range(MAX_DEPTH):
+        for _ in range(max_depth):
             cur = cur.parent if kind_of(cur) != "doc" else None
             if cur is None:
                 break
@@ -85,7 +85,7 @@ def tree_structure(U):
                 return ("tree.acyclic", "obj#%d is its own ancestor" % i)
             seen.append(cur)
         else:
-            return ("tree.acyclic", "parent chain of obj#%d exceeds depth %d" % (i, MAX_DEPTH))
+            return ("tree.acyclic", "parent chain of obj#%d exceeds depth %d" % (i, max_depth))
     return None
 
 
